@@ -308,7 +308,10 @@ func run(c *hx.Ctx) {
 	n := c.Scale(240, 6000)
 	for i := 0; i < n; i++ {
 		r := c.R.Fork()
-		cs := mgrsim.Case{Seed: r.U64(), Regime: i % 3, Opts: chaingen.GenOpts{Blocks: 5 + r.Intn(18), Branchiness: 2 + r.Intn(5), TxPerBlock: r.Intn(4), Corruptions: r.Intn(4)}}
+		cs := mgrsim.Case{Seed: r.U64(), Regime: i % 6, Opts: chaingen.GenOpts{Blocks: 5 + r.Intn(18), Branchiness: 2 + r.Intn(5), TxPerBlock: r.Intn(4), Corruptions: r.Intn(4), Jitter: r.Intn(4), OnInvalid: r.Intn(3)}}
+		if cs.Regime >= 3 && r.Bool() {
+			cs.Opts.Jitter = 4000 // fast and slow blocks: branches diverge in work (near-ties for the 20% rule)
+		}
 		t := cs.Tree()
 		cs.Plan = mgrsim.GenPlan(rng.New(cs.Seed^0x5bd1e995), t, i%8 == 7)
 		doCase(cs, true)
